@@ -1,4 +1,5 @@
 pub mod cal;
 pub mod ganzhi;
 pub mod lunar_seq;
+pub mod pillars;
 pub mod terms;
